@@ -487,12 +487,13 @@ def _is_fn_like(n):
     return "params" in n or "param" in n or n.get("type") in ("GetterProperty", "StaticBlock")
 
 
-def slot_temporary_scopes(out):
+def slot_temporary_scopes(out, loops=True):
     """for every temporary assigned inside a generated `_isSlot(t = <call child>)`: (name, is a declaration of that binding located in the body of the
     innermost USER-written function whose body evaluates the assignment?).  Generated functions (`default: () => [...]`) are transparent; parameter
     positions belong to the enclosing function (a default value is evaluated per call of the function, the visitor leaves its temporary to the
     enclosing list: the recorded design property of hoisted temporaries)."""
     assigned, declared = {}, collections.defaultdict(set)
+    LOOPS = ("ForStatement", "ForInStatement", "ForOfStatement", "WhileStatement", "DoWhileStatement")
     def walk(n, fn):
         if isinstance(n, list):
             for x in n:
@@ -514,10 +515,21 @@ def slot_temporary_scopes(out):
             for k, v in n.items():
                 walk(v, id(n) if k == "body" else fn)
             return
+        if loops and t in LOOPS:
+            # the body (and the per-iteration parts) of a loop is a region of its own: one binding per ITERATION is needed
+            for k, v in n.items():
+                walk(v, fn if k in ("init", "left", "right") else ("loop", id(n)))
+            return
+        if loops and t == "ClassProperty":
+            for k, v in n.items():
+                walk(v, ("field", id(n)) if k == "value" else fn)
+            return
         for v in n.values():
             walk(v, fn)
     walk(out, 0)
-    return [(key[0], all(fn in declared.get(key, ()) for fn in fns)) for key, fns in sorted(assigned.items(), key=lambda kv: str(kv[0]))]
+    return [(key[0], all(fn in declared.get(key, ()) for fn in fns),
+             sorted({fn[0] for fn in fns if isinstance(fn, tuple) and fn not in declared.get(key, ())}))
+            for key, fns in sorted(assigned.items(), key=lambda kv: str(kv[0]))]
 
 
 def c03_post(rec, c, r, d):
@@ -529,9 +541,17 @@ def c03_post(rec, c, r, d):
         return
     if rec["oracle"] != "ok" or "out" not in r or r.get("panic") is not None:
         return
-    bad = [name for name, ok in slot_temporary_scopes(r["out"]) if not ok]
+    scopes = slot_temporary_scopes(r["out"])
+    bad = [name for name, ok, _ in scopes if not ok]
     if bad:
-        rec["oracle"] = "FAIL:slot-temporary-shared-between-invocations:the temporaries %s of call children are declared outside the innermost user-written function that evaluates the call (its lazily read default slot then sees the value of the LAST invocation)" % bad
+        kinds = sorted({k for _, ok, ks in scopes if not ok for k in ks})
+        only_regions = all(ks for _, ok, ks in scopes if not ok) and not [1 for name, ok, _ in slot_temporary_scopes(r["out"], loops=False) if not ok]
+        if only_regions:
+            # the recorded design-level finding: a loop body without braces / a class field initialiser has no statement list of its own
+            rec["oracle"] = ("FAIL:slot-temporary-shared-between-%s:the temporaries %s of call children are declared outside the %s that evaluates the call once per "
+                             "iteration / instance (the lazily read default slots then all see the LAST value)") % ("-and-".join(kinds), bad, " / ".join(kinds))
+        else:
+            rec["oracle"] = "FAIL:slot-temporary-shared-between-invocations:the temporaries %s of call children are declared outside the innermost user-written function that evaluates the call (its lazily read default slot then sees the value of the LAST invocation)" % bad
 
 
 PROPS["C03"] = {
